@@ -700,6 +700,7 @@ type suGen struct {
 	ids  []string
 	seq  []string
 	gate map[string]bool
+	lastLeaf []string // index path of the leaf the last generated subscription path was drawn from
 }
 
 func (s *suGen) emit(format string, a ...interface{}) { s.seq = append(s.seq, fmt.Sprintf(format, a...)) }
@@ -717,11 +718,26 @@ func (s *suGen) flushCA() {
 	s.g.seq = nil
 }
 
+// subPathAfter: a path for a leaf whose index *text* starts with that of the previous subscription
+// path's leaf without being below it (eth1 then eth10), unmodified — or "" if the universe has none.
+func (s *suGen) subPathAfter(prev []string) string {
+	pj := strings.Join(prev, "/")
+	for _, i := range s.r.Perm(len(s.g.leaves)) {
+		q := elemsToElement(s.g.leaves[i].elems)
+		qj := strings.Join(q, "/")
+		if len(prev) > 0 && qj != pj && strings.HasPrefix(qj, pj) && !strings.HasPrefix(qj, pj+"/") {
+			return "0:" + encStr("") + ":" + encPath(q)
+		}
+	}
+	return ""
+}
+
 func (s *suGen) subPath() string {
 	r := s.r
 	g := s.g
 	l := g.leaves[r.Intn(len(g.leaves))]
 	q := elemsToElement(l.elems)
+	s.lastLeaf = append([]string(nil), q...)
 	switch r.Intn(7) {
 	case 0:
 		q = q[:r.Intn(len(q)+1)]
@@ -777,7 +793,13 @@ func (s *suGen) genSub(id string) {
 	}
 	var subs []string
 	for i := 0; i < n; i++ {
-		sp := s.subPath()
+		sp := ""
+		if i > 0 && r.Intn(3) == 0 {
+			sp = s.subPathAfter(s.lastLeaf)
+		}
+		if sp == "" {
+			sp = s.subPath()
+		}
 		if r.Intn(25) == 0 {
 			sp = "1:~:." // nil path
 		}
